@@ -147,11 +147,11 @@ func Shrink(s *scn.Scenario, class string, opt Options, maxExecs int, maxTime ti
 			explicitOnly = stage == 7
 			for again := true; again; {
 				again = false
-				for _, c := range candidates(cur, stage) {
+				for _, mk := range candidates(cur, stage) {
 					if execs >= maxExecs || time.Since(start) > maxTime {
 						return cur, execs
 					}
-					if try(c) {
+					if try(mk()) {
 						changed, again = true, true
 						break
 					}
@@ -167,12 +167,18 @@ func Shrink(s *scn.Scenario, class string, opt Options, maxExecs int, maxTime ti
 
 const numStages = 8
 
-func candidates(s *scn.Scenario, stage int) []*scn.Scenario {
-	var out []*scn.Scenario
+// candidates enumerates the smaller variants of one stage lazily: a candidate
+// is only materialised (cloned and edited) when it is about to be tried - a
+// long explicit schedule times thousands of candidates would not fit in memory
+// otherwise.
+func candidates(s *scn.Scenario, stage int) []func() *scn.Scenario {
+	var out []func() *scn.Scenario
 	add := func(f func(c *scn.Scenario)) {
-		c := s.Clone()
-		f(c)
-		out = append(out, c)
+		out = append(out, func() *scn.Scenario {
+			c := s.Clone()
+			f(c)
+			return c
+		})
 	}
 	switch stage {
 	case 0: // whole tasks
@@ -397,7 +403,11 @@ func candidates(s *scn.Scenario, stage int) []*scn.Scenario {
 	case 7: // preemptions: merge schedule segments
 		if s.Mode == "G" && len(s.Sched) >= 4 {
 			n := len(s.Sched) / 2
-			for i := 0; i < n; i++ {
+			stepBy := 1
+			if n > 600 {
+				stepBy = n / 600 // very long schedules: try a sample of the segments per pass
+			}
+			for i := 0; i < n; i += stepBy {
 				i := i
 				add(func(c *scn.Scenario) {
 					// give segment i's points to its predecessor (or successor)
